@@ -77,7 +77,7 @@ def gen_op(rng, wired, depth=0):
     if k < 0.75:
         n = rng.randint(1, 3)
         sp = {"ctrl": inner, "n": n, "z": rng.choice([0, 0, rng.randint(0, n)])}
-        if wired and rng.random() < 0.7:
+        if wired:   # labelled controls at EVERY level (an unlabelled Controlled drops its base's labels)
             sp["cw"] = 100 + 10 * depth + rng.randint(0, 2)
         return sp
     return {"pow": inner, "p": rng.choice([0, 1, 2, 2, 3, 4, 5, -1])}
@@ -85,7 +85,7 @@ def gen_op(rng, wired, depth=0):
 
 def gen_entry(rng):
     wired = rng.random() < 0.5
-    e = {"op": gen_op(rng, wired)}
+    e = {"op": gen_op(rng, wired and rng.random() < 0.7)}
     e["w"] = rng.randint(0, 6) if wired else None
     return e
 
